@@ -47,6 +47,10 @@ type verifC06bCheckpointer struct {
 	outcomes []int
 	calls    int
 	payloads [][]byte
+
+	// full-snapshot checkpoints (nil writer): always fail, by error or by an unsuccessful meta
+	fullCalls      int
+	fullNotSuccess bool
 }
 
 func verifC06bPayload(i int) []byte { return []byte{'W', 'A', 'L', byte('0' + i)} }
@@ -54,11 +58,15 @@ func verifC06bPayload(i int) []byte { return []byte{'W', 'A', 'L', byte('0' + i)
 // Checkpoint behaves like the manager: the compacted WAL is written to w BEFORE the checkpoint is
 // attempted, whatever its outcome then is.
 func (c *verifC06bCheckpointer) Checkpoint(w io.Writer, timeout time.Duration) (*sql.CheckpointManagerMeta, int64, error) {
+	if w == nil {
+		c.fullCalls++
+		if c.fullNotSuccess {
+			return &sql.CheckpointManagerMeta{CheckpointMeta: sql.CheckpointMeta{Code: 1, Pages: 2, Moved: 2}}, 0, nil
+		}
+		return nil, 0, errors.New("checkpoint did not complete within 1s")
+	}
 	i := c.calls
 	c.calls++
-	if w == nil {
-		return nil, 0, errors.New("verif: full snapshot path is not part of this harness")
-	}
 	p := verifC06bPayload(i)
 	n, err := w.Write(p)
 	if err != nil {
@@ -75,17 +83,21 @@ func (c *verifC06bCheckpointer) Checkpoint(w io.Writer, timeout time.Duration) (
 	return nil, 0, errors.New("checkpoint: error checkpointing WAL")
 }
 
-// verifC06bSnapStore: an incremental snapshot is due; nothing else is consulted by fsmSnapshot.
+// verifC06bSnapStore: snapshots exist, so an incremental snapshot is due unless the full-needed flag
+// is set (snapshot.Store.DueNext/SetDueNext); nothing else is consulted by fsmSnapshot.
 type verifC06bSnapStore struct {
 	SnapshotStore // nil: any other method panics
-	setFull       int
+	fullNeeded    bool
 }
 
-func (s *verifC06bSnapStore) DueNext() (snapshot.Type, error) { return snapshot.Incremental, nil }
-func (s *verifC06bSnapStore) SetDueNext(t snapshot.Type) error {
-	if t == snapshot.Full {
-		s.setFull++
+func (s *verifC06bSnapStore) DueNext() (snapshot.Type, error) {
+	if s.fullNeeded {
+		return snapshot.Full, nil
 	}
+	return snapshot.Incremental, nil
+}
+func (s *verifC06bSnapStore) SetDueNext(t snapshot.Type) error {
+	s.fullNeeded = t == snapshot.Full
 	return nil
 }
 
@@ -179,7 +191,9 @@ func verifC06bNewSnapshotPathStreamer(walDirPath string) (*snapshot.SnapshotPath
 }
 
 func verifC06bSetSynchronousMode(d *sql.SwappableDB, m sql.SynchronousMode) error { return nil }
-func verifC06bDBLastModified(d *sql.SwappableDB) (time.Time, error)               { return time.Time{}, nil }
+func verifC06bDBLastModified(d *sql.SwappableDB) (time.Time, error)               { return verifC06bDBTime, nil }
+
+var verifC06bDBTime time.Time
 
 // ---------------------------------------------------------------------------------------------
 // the world
@@ -215,6 +229,7 @@ func verifC06bNewEnv(outcomes []int, walHasData bool) *verifC06bEnv {
 		verifC06bFS = map[string]*verifC06bFile{}
 		verifC06bNames = map[*os.File]string{}
 		verifC06bWALHasData = walHasData
+		verifC06bDBTime = time.Time{}
 		e.dir = "/verif-c06b"
 		s.db = new(sql.SwappableDB)
 		s.dbPath = e.dir + "/db.sqlite"
@@ -334,6 +349,42 @@ func VerifC06bEmptyWAL() {
 	verifReach("no-wal-data")
 	verifAssert("C06-empty-wal-is-no-snapshot", err == ErrNoWALToSnapshot && snap == nil)
 	verifAssert("C06-empty-wal-manager-not-called", e.ck.calls == 0)
+	e.check(nil)
+}
+
+// VerifC06bFailedFull: a full snapshot is due - because the snapshot store says so, or only because the
+// database file looks modified behind the store's back - and its checkpoint fails (error, or a meta
+// that is not Success). Such a checkpoint may already have moved WAL frames into the database file
+// that no incremental snapshot captured (harness/C06), so the next snapshot must be a full one again.
+func VerifC06bFailedFull() {
+	verifPanicsAreViolations()
+	reason := verifChoice("reason", 2)
+	e := verifC06bNewEnv([]int{verifC06bBusy}, true)
+	defer e.cleanup()
+	e.ck.fullNotSuccess = verifChoice("failure", 2) == 1
+	if reason == 0 {
+		e.ss.fullNeeded = true
+	} else {
+		// last recorded modification time long ago, the file is newer: dbModified() is true
+		e.s.dbModifiedTime.Store(time.Unix(1, 0))
+		if verifSymbolic() {
+			verifC06bDBTime = time.Unix(1000, 0)
+		}
+	}
+	snap, err := e.s.fsmSnapshot()
+	verifAssert("C06-first-attempt-is-full", e.ck.fullCalls == 1 && e.ck.calls == 0)
+	verifAssert("C06-failed-full-checkpoint-fails-the-snapshot", err != nil && snap == nil)
+	e.s.fsmSnapshot()
+	again := e.ck.fullCalls == 2 && e.ck.calls == 0
+	if again {
+		verifReach("full-asked-again")
+	}
+	if !again && reason == 1 {
+		// recorded defect class: the full snapshot was due only because dbModified() was true; the
+		// deferred dbModifiedTime.Store of the failed attempt forgets that, an incremental snapshot follows
+		verifFinding("C06-failed-full-then-incremental-loses-frames")
+	}
+	verifAssert("C06-failed-full-keeps-full-due", again)
 	e.check(nil)
 }
 
